@@ -219,6 +219,7 @@ class SimNet:
         self._patched = []
         self.before_delivery = None
         self.harness_errors = []
+        self.order = 0
         self.after_delivery = None
         self.loop.set_exception_handler(self._on_loop_exception)
         self._handler = _ListHandler(self.logs, self.loop)
@@ -370,7 +371,8 @@ class SimNet:
             if isinstance(ep, CoapEndpoint) and ep.transport.closed:
                 self.deliveries.append(dict(seq=seq, t=self.loop.time(), src=rec["src"], dst=rec["dst"], data=rec["data"], wire_seq=rec["seq"], to=ep.name, lost="closed"))
                 continue
-            d = dict(seq=seq, t=self.loop.time(), src=rec["src"], dst=rec["dst"], data=rec["data"], wire_seq=rec["seq"], to=ep.name, wire_before=len(self.wire))
+            self.order += 1
+            d = dict(seq=seq, t=self.loop.time(), src=rec["src"], dst=rec["dst"], data=rec["data"], wire_seq=rec["seq"], to=ep.name, wire_before=len(self.wire), order=self.order)
             self.deliveries.append(d)
             if self.before_delivery is not None:
                 self.before_delivery(d)
@@ -387,7 +389,8 @@ class SimNet:
             return
         ee = struct.pack("IbbbbII", errno_value, 2, 1, 4, 0, 0, 0)
         anc = [(socket.IPPROTO_IPV6, socknumbers.IPV6_RECVERR, ee)]
-        self.events.append((self.loop.time(), "icmp-error", ep.name, remote_addr))
+        self.order += 1
+        self.events.append((self.loop.time(), "icmp-error", ep.name, remote_addr, self.order))
         contextvars.Context().run(ep.iface.datagram_errqueue_received, b"", anc, socknumbers.MSG_ERRQUEUE, (remote_addr[0], remote_addr[1], 0, 0))
 
     # -- running -----------------------------------------------------------------------
